@@ -95,6 +95,66 @@ Fixpoint gate_conns (cfg : config) (p : persist) (g : gate) (cs : list (conn * p
       rs :: gate_conns cfg p2 g1 cs'
   end.
 
+(* ------------------------------------------------------------------ writers in flight *)
+(* sendWithWriter is not atomic: it takes the READ side of sendGate, looks at sendClosed, writes on
+   whatever connection the transport holds AT THE TIME OF THE WRITE, and only then releases the lock.
+   connect() takes the WRITE side in setSendClosed(true): it gets it only when no reader is left, so
+   the dial that replaces the transport's connection cannot happen while a write is in flight.
+   [GEnter]: a sender passes the check (or is refused at once); [GLeave]: its write happens now and
+   the lock is released.  [hold] = false is the variant that releases the lock right after the check
+   (not the code).  Steps that cannot happen in the state return None:
+   - GBegin while readers hold the lock (hold = true): Lock() waits;
+   - a write of the negotiation (GOut) or the end of connect (GEnd) outside connect (gate open);
+   - GEnd Ok on a channel without TLS when Insecure is off: NewSession's own gate
+     (GateP.connect_ok_final_tls proves it of Session.connect). *)
+Record gate2 := { h_gate : gate; h_inflight : nat }.
+Inductive gev2 := GE (e : gev) | GEnter | GLeave.
+
+Definition gstep2 (insecure hold : bool) (s : gate2) (e : gev2) : option (gate2 * list sres) :=
+  let g := h_gate s in
+  let lift e := let '(g', rs) := gstep g e in Some ({| h_gate := g'; h_inflight := h_inflight s |}, rs) in
+  match e with
+  | GEnter =>
+      if g_closed g then Some (s, [Refused])
+      else Some ({| h_gate := g; h_inflight := S (h_inflight s) |}, [])
+  | GLeave =>
+      match h_inflight s with
+      | O => None
+      | S n => Some ({| h_gate := g; h_inflight := n |}, [if g_conn g then Written (g_tls g) else Refused])
+      end
+  | GE (GBegin d) =>
+      if hold && negb (Nat.eqb (h_inflight s) 0) then None else lift (GBegin d)
+  | GE (GOut x) => if g_closed g then lift (GOut x) else None
+  | GE (GEnd Ok) => if g_closed g && (insecure || g_tls g) then lift (GEnd Ok) else None
+  | GE (GEnd r) => if g_closed g then lift (GEnd r) else None
+  | GE e => lift e
+  end.
+
+Fixpoint grun2 (insecure hold : bool) (s : gate2) (es : list gev2) : option (gate2 * list sres) :=
+  match es with
+  | [] => Some (s, [])
+  | e :: es' =>
+      match gstep2 insecure hold s e with
+      | None => None
+      | Some (s1, r1) =>
+          match grun2 insecure hold s1 es' with
+          | None => None
+          | Some (s2, r2) => Some (s2, r1 ++ r2)
+          end
+      end
+  end.
+
+Definition gate2_0 : gate2 := {| h_gate := gate0; h_inflight := 0 |}.
+
+(* can the dial of a reconnection happen while a sender that passed the gate on an established TLS
+   session is still inside its write? *)
+Definition dial_overtakes_writer (hold : bool) : bool :=
+  match gstep2 false hold {| h_gate := {| g_closed := false; g_conn := true; g_tls := true |}; h_inflight := 1 |}
+               (GE (GBegin true)) with
+  | None => false
+  | Some _ => true
+  end.
+
 (* ------------------------------------------------------------------ websocket opening handshake *)
 Inductive scheme := Https | Http.     (* wss:// is dialled as https://, ws:// as http:// *)
 
